@@ -702,8 +702,39 @@ fn is_branch(i: usize) -> bool {
 /// `j` is said to fall inside the tree if `j < n`.
 #[inline]
 fn is_leaf_index_in_tree(i: usize, n: usize) -> bool {
-    let j = leaf_index_to_tree_index(i);
-    is_tree_index_in_tree(j, n)
+    // A leaf index whose tree index does not fit into a `usize` cannot be inside any tree.
+    i.checked_mul(2)
+        .is_some_and(|j| is_tree_index_in_tree(j, n))
+}
+
+/// Returns the parent index of a node at index `i` in a complete binary tree of size `n`,
+/// or `None` if `i` has no ancestor inside the tree (it is the root, or lies outside).
+///
+/// Unlike [`complete_parent`] this never panics, so it is safe to use on untrusted indices.
+fn checked_complete_parent(i: usize, n: usize) -> Option<usize> {
+    let mut i = i;
+    loop {
+        if i == usize::MAX {
+            break None;
+        }
+        i = perfect_parent(i);
+        if i < n {
+            break Some(i);
+        }
+    }
+}
+
+/// Returns the number of ancestors the node at tree index `i` has inside a complete binary
+/// tree of size `n`. This is the maximum number of audit path segments that can be consumed
+/// when walking from `i` towards the root.
+fn number_of_ancestors(i: usize, n: usize) -> usize {
+    let mut i = i;
+    let mut count: usize = 0;
+    while let Some(parent) = checked_complete_parent(i, n) {
+        i = parent;
+        count = count.saturating_add(1);
+    }
+    count
 }
 
 /// Returns if a tree index `i` is part of  tree.
